@@ -1231,24 +1231,36 @@ class Timezone(Component):
         # (utcoffset, dstoffset, name)
         # dstoffset = 0, if current transition is to standard time
         #           = this_utcoffset - prev_standard_utcoffset, otherwise
+        # The offset of the closest transition to standard time before each
+        # transition and of the first one at or after it, computed in one
+        # pass each: searching for them per transition is quadratic in the
+        # number of onsets.
+        previous_standard = []
+        offset = None
+        for _, _, osto, name in transitions:
+            previous_standard.append(offset)
+            if not dst[name]:
+                offset = osto
+        next_standard = [None] * len(transitions)
+        offset = None
+        for index in range(len(transitions) - 1, -1, -1):
+            if not dst[transitions[index][3]]:  # [3] is the name
+                offset = transitions[index][2]  # [2] is osto
+            next_standard[index] = offset
+
         transition_info = []
         for num, (transtime, osfrom, osto, name) in enumerate(transitions):
             dst_offset = False
             if not dst[name]:
                 dst_offset = timedelta(seconds=0)
             else:
-                # go back in time until we find a transition to dst
-                for index in range(num - 1, -1, -1):
-                    if not dst[transitions[index][3]]:  # [3] is the name
-                        dst_offset = osto - transitions[index][2]  # [2] is osto  # noqa
-                        break
+                # go back in time until we find a transition to standard time
+                if previous_standard[num] is not None:
+                    dst_offset = osto - previous_standard[num]
                 # when the first transition is to dst, we didn't find anything
                 # in the past, so we have to look into the future
-                if not dst_offset:
-                    for index in range(num, len(transitions)):
-                        if not dst[transitions[index][3]]:  # [3] is the name
-                            dst_offset = osto - transitions[index][2]  # [2] is osto  # noqa
-                            break
+                if not dst_offset and next_standard[num] is not None:
+                    dst_offset = osto - next_standard[num]
             assert dst_offset is not False
             transition_info.append((osto, dst_offset, name))
         return transition_times, transition_info
